@@ -116,7 +116,8 @@ Section Order.
   Lemma inv2_fire s : inv2 s -> inv2 (handle_timeout c s).
   Proof.
     intros I. unfold handle_timeout. destruct (incs s).
-    - apply set_timer_inv2; auto. apply reschedule_ok.
+    - assert (I' : inv2 (set_timer reschedule_time s)) by (apply set_timer_inv2; auto; apply reschedule_ok).
+      constructor; simpl; try apply I'. apply I.
     - assert (Ht : OKt (tadd (tsf s) (ltr s))) by (apply tadd_ok; apply I).
       destruct (pending s) as [|e r] eqn:Hp.
       + constructor; simpl; try apply I; auto.
@@ -283,10 +284,8 @@ Definition witness_eq : list event :=
 Definition witness_resched : list event :=
   [Create 10] ++ steps 8 ++ [Tick 50000; Create 7; Step; Step; Step; Fire] ++ steps 8 ++ [Fire].
 
-Lemma witness_resched_early_int : early_b (run cmp_int witness_resched init) = true.
-Proof. vm_compute. reflexivity. Qed.
-Lemma witness_resched_early_src : early_b (run cmp_src witness_resched init) = true.
-Proof. vm_compute. reflexivity. Qed.
+Lemma witness_resched_not_early : early_b (run cmp_int witness_resched init) = false /\ early_b (run cmp_src witness_resched init) = false.
+Proof. split; vm_compute; reflexivity. Qed.
 
 (* ---- fact-dependent obligations (re-checked against the regenerated Facts_Time.v on every run) ------------- *)
 
@@ -296,12 +295,6 @@ Proof. apply src_lt_ok_if. vm_compute. reflexivity. Qed.
 
 Theorem pending_sorted_src evs : sorted (pending (run cmp_src evs init)).
 Proof. apply pending_sorted_c, src_lt_ok. Qed.
-
-Lemma witness_resched_refutes :
-  exists evs, Early (run cmp_int evs init) /\ Early (run cmp_src evs init).
-Proof.
-  exists witness_resched. split; apply early_b_sound; [apply witness_resched_early_int | apply witness_resched_early_src].
-Qed.
 
 Lemma reschedule_fact : reschedule_csecs = 1 /\ to_us reschedule_time = 10000.
 Proof. split; reflexivity. Qed.
